@@ -349,6 +349,13 @@ def rand_key(rng, min_len=0, max_len=64, hot=0.5) -> bytes:
     n = int(rng.integers(min_len, max_len + 1))
     if n == 0:
         return b""
+    if n >= 4 and rng.random() < 0.12:
+        # a run of one byte value (0xff / 0x00 / other) of length up to n, then random bytes: windows that equal
+        # sentinel patterns, periodic n-grams
+        run = int(rng.integers(1, n + 1))
+        b = bytes([int(HOT_BYTES[int(rng.integers(0, len(HOT_BYTES)))])]) if rng.random() < 0.8 else bytes([int(rng.integers(0, 256))])
+        tail = bytes(rng.integers(0, 256, n - run, dtype=np.uint8))
+        return (b * run + tail) if rng.random() < 0.7 else (tail + b * run)
     if rng.random() < hot:
         return bytes(HOT_BYTES[rng.integers(0, len(HOT_BYTES), n)])
     return bytes(rng.integers(0, 256, n, dtype=np.uint8))
@@ -387,7 +394,8 @@ def key_family(rng, n_keys, min_len=0, max_len=16, alias=True):
 
 
 SPECIAL_VALUES = [0, 1, 1, 1, 2, 3, 7, 100, 10**4, CAP - 3, CAP - 2, CAP - 1, CAP, CAP + 1, CAP + 2, 2**32 + 5, 2**40,
-                  2**31, 2**31 - 10, CAP // 2, 2**31 + 100]  # two of these overflow a cell only when they meet
+                  2**31, 2**31 - 10, CAP // 2, 2**31 + 100,  # two of these overflow a cell only when they meet
+                  40000, 65535, 65536, 65537, 255, 256, 2**24, 2**24 + 1]  # narrower-integer and float32 boundaries
 
 
 def rand_value(rng, big=0.15, zero=0.05):
